@@ -104,9 +104,15 @@ def camel(attr):
     return head + "".join(w[:1].upper() + w[1:] for w in rest)
 
 
+def may_open_ring(seed):
+    """scenarios of these seeds may contain polygons whose ring was left open by the vertices setter"""
+    return int(seed) % 3 == 0
+
+
 class Gen:
     def __init__(self, seed, fmt="xml", edge=False):
         self.rng = random.Random(seed)
+        self.seed = seed
         self.fmt = fmt
         self.edge = edge
         self.enums, self.elems = T()
@@ -155,8 +161,15 @@ class Gen:
             while min((angs[(i + 1) % n] - angs[i]) % (2 * math.pi) for i in range(n)) < 0.3:
                 angs = sorted(r.uniform(0, 2 * math.pi) for _ in range(n))
             rad = [r.uniform(1.0, 3.0) for _ in range(n)]
-            return Polygon(np.array([[round(c[0] + ri * math.cos(a), 5), round(c[1] + ri * math.sin(a), 5)]
+            poly = Polygon(np.array([[round(c[0] + ri * math.cos(a), 5), round(c[1] + ri * math.sin(a), 5)]
                                      for ri, a in zip(rad, angs)]))
+            if r.random() < 0.25 and may_open_ring(self.seed):
+                # (a third of the scenarios; they are kept out of the table correspondence, whose reader side does not
+                # describe that the Polygon constructor closes a ring the file left open)
+                # re-shaped after construction through the public setter, with the ring left open (the setter stores the
+                # array as given; the constructor would have closed it): the same region, the same vertices
+                poly.vertices = np.array(poly.vertices[:-1], dtype=float)
+            return poly
         sub = tuple(x for x in kinds if x != "group") or ("rect",)
         if one_kind:
             sub = (r.choice(sub),)
@@ -383,12 +396,16 @@ class Gen:
                 inc_l = lls[l]
                 succ = set(inc_l.successor)
                 which = r.choice(["right", "straight", "left"])
+                # (protobuf: ids start at 0; the first incoming element of a third of the intersections has id 0, so that a
+                # `left_of` naming it is the number 0)
+                inc_id = 0 if (self.fmt == "pb" and not incs and r.random() < 0.35) else self.nid
                 incs.append(IntersectionIncomingElement(
-                    self.nid, {inc_l.lanelet_id},
+                    inc_id, {inc_l.lanelet_id},
                     successors_right=succ if which == "right" else set(),
                     successors_straight=succ if which == "straight" else set(),
                     successors_left=succ if which == "left" else set(),
-                    left_of=incs[-1].incoming_id if incs and r.random() < 0.5 else None))
+                    left_of=incs[-1].incoming_id if incs and r.random() < (0.8 if incs[-1].incoming_id == 0 else 0.5)
+                    else None))
                 self.nid += 1
             inters.append(Intersection(self.nid, incs, crossings={lls[-1].lanelet_id} if r.random() < 0.4 else set()))
             self.nid += 1
@@ -457,7 +474,8 @@ class Gen:
                 geo = GeoTransformation("+proj=utm +zone=32 +ellps=WGS84", 0.0, 0.0, 0.0, 1.0)
         if r.random() < 0.5:
             env = Environment(Time(r.randint(0, 23), r.randint(0, 59)),
-                              self.enum_in(TimeOfDay, "timeOfDay", exclude=(TimeOfDay.UNKNOWN,)),
+                              # "unknown" is a value of timeOfDay in the schema (not of weather / underground)
+                              self.enum_in(TimeOfDay, "timeOfDay", exclude=() if r.random() < 0.3 else (TimeOfDay.UNKNOWN,)),
                               self.enum_in(Weather, "weather", exclude=(Weather.UNKNOWN,)),
                               self.enum_in(Underground, "underground", exclude=(Underground.UNKNOWN,)))
         return Location(r.randint(1, 9999999), self.f(-90, 90), self.f(-180, 180), geo, env)
